@@ -9,11 +9,14 @@ VARIABLE i
 Init == i = 0
 Next == \/ i = 0 /\ i' \in {-k : k \in 1..K}
         \/ i < 0 /\ i' \in {n \in 1..Len(Rows) : n % K = (-i) % K}
+(* a decimal at or beyond the midpoint between the largest double and 2^1024 has no nearest double: the literal cannot be represented *)
+TooLarge == MAbsDiff(MPow2(1024), MPow2(970))
 Holds17(r) ==
   LET D == DigitsValue(r.cs, 10)
       num == IF r.e10 >= 0 THEN Mul(D, Pow(Ten, r.e10)) ELSE D
       den == IF r.e10 >= 0 THEN One ELSE Pow(Ten, -r.e10)
   IN IF IsZero(D) THEN r.k = "float" /\ IsZero(r.fm)
+     ELSE IF MCmp(num.m, MMul(den.m, TooLarge)) >= 0 THEN r.k = "rejected"
      ELSE r.k = "float" /\ ~IsZero(r.fm) /\ RoundedQuotient(num, den, r.fm, r.fe)
 Verdict == i > 0 => PrintT("V " \o ToJson([id |-> Rows[i].id, ok |-> Holds17(Rows[i])]))
 =============================================================================
